@@ -253,7 +253,9 @@ def remove_genes(
             # have body at all, which is why this isn't if body is None.
             if not hasattr(rxn.gpr, "body"):
                 rxn.gpr.body = None
-                rxn._genes = set()
+                # the other genes of the rule must forget the reaction as well
+                for gene in list(rxn._genes):
+                    rxn._dissociate_gene(gene)
             else:
                 rxns_to_revisit.add(rxn)
             if context:
